@@ -78,7 +78,14 @@ RulesOf(U, full) ==
               { [op |-> "all", subs |-> <<x, [op |-> "not", sub |-> y]>>] : x \in p4, y \in p4 }
               \cup { [op |-> "all", subs |-> <<x, [op |-> "not", sub |-> [op |-> o, sub |-> y, stop |-> EndStop, field |-> ""]]>>] :
                        x \in p4, y \in p4, o \in {"inside", "has"} }
-    IN A \cup R2 \cup C2 \cup R3 \cup C3 \cup C4 \cup C5
+        \* a relational rule whose sub-rule is directly a relational rule (no rule object in between): the inner rule hands
+        \* the node IT found to the outer one (Labels.tla: what each of them records as its secondary label)
+        ne == {Neighbor, EndStop}
+        C6 == { [op |-> o1, sub |-> [op |-> o2, sub |-> x, stop |-> s2, field |-> ""], stop |-> s1, field |-> ""] :
+                    o1 \in Relations, o2 \in Relations, x \in k1 \cup p1, s1 \in ne, s2 \in ne }
+              \cup { [op |-> o, sub |-> [op |-> o, sub |-> [op |-> o, sub |-> x, stop |-> EndStop, field |-> ""], stop |-> s, field |-> ""],
+                       stop |-> EndStop, field |-> ""] : o \in {"has", "inside"}, x \in k1 \cup p1, s \in ne }
+    IN A \cup R2 \cup C2 \cup R3 \cup C3 \cup C4 \cup C5 \cup C6
 
 \* documents with local utilities: [rule, utils]
 UtilDocs(U) ==
@@ -89,7 +96,10 @@ UtilDocs(U) ==
                 [op |-> "has", sub |-> m("u1"), stop |-> EndStop, field |-> ""],
                 [op |-> "all", subs |-> <<m("u1"), m("u2")>>] },
         \* u1 may be a rule without potential kinds (a regex): references to it must not narrow any kind set
-        ut \in { [u1 |-> a, u2 |-> [op |-> "any", subs |-> <<m("u1"), b>>]] : a \in k1 \cup p1 \cup RegexAtoms(U), b \in k1 \cup p1 } }
+        \* ... or a bare relational rule: `matches` hands on the node that rule found
+        ut \in { [u1 |-> a, u2 |-> [op |-> "any", subs |-> <<m("u1"), b>>]] :
+                    a \in k1 \cup p1 \cup RegexAtoms(U) \cup { [op |-> "has", sub |-> k, stop |-> EndStop, field |-> ""] : k \in k1 },
+                    b \in k1 \cup p1 } }
 
 \* documents that refer to a global utility rule with a constraint (the rule `sub` of the utility is one of the
 \* universe's patterns, the constraint restricts one of its variables); the reference stands where a losing
